@@ -213,10 +213,15 @@ pub fn view_json(mode: u8, d: &Difficulty, map: &Beatmap) -> (String, u64) {
 }
 
 pub fn case(rng: &mut Rng, max_objects: usize) -> String {
+    // now and then a catch map of small fruits alternating between two positions (the movement
+    // skill's back-and-forth detector depends on the catcher width, hence on CS)
+    let buzz = rng.chance(1, 10);
     let gm = gen_any(
         rng,
         &GenOpts {
             max_objects,
+            mode: if buzz { Some(2) } else { None },
+            shape: if buzz { Some(crate::gen::Shape::Buzz) } else { None },
             ..Default::default()
         },
     );
